@@ -16,18 +16,62 @@ Definition settled (s : state) : Prop :=
   (forall q x, getq s q = Some x -> q_grant x <> None -> q_cancelled x = true) /\
   (forall r x, getr s r = Some x -> r_closed x = false -> r_tm x = TNone).
 
+(* a slightly larger class of configurations, used for the analysis of quiescent states: the pending loop may also
+   wait for an unloaded event, a re-queue goroutine may wait for room in the pending queue *)
+Definition calm_pc (s : state) (p : pc) : Prop :=
+  p = PSel \/ p = CSel \/ p = TDone \/ (exists q, p = FWDone q /\ qcanc s q = false) \/
+  (exists q r, p = PWait q r) \/ (exists q, p = RSSend q).
+
+Lemma idle_calm s p : idle_pc s p -> calm_pc s p.
+Proof. unfold idle_pc, calm_pc. intuition. Qed.
+
+Lemma calm_cnt_zero s (f : pc -> nat) :
+  Forall (calm_pc s) (thr s) -> f PSel = 0 -> f CSel = 0 -> f TDone = 0 -> (forall q, f (FWDone q) = 0) ->
+  (forall q r, f (PWait q r) = 0) -> (forall q, f (RSSend q) = 0) -> cnt f (thr s) = 0.
+Proof.
+  intros F A B C D E G. apply cnt_zero. intros p Hin. rewrite Forall_forall in F.
+  destruct (F p Hin) as [->|[->|[->|[(q & -> & _)|[(q & r & ->)|(q & ->)]]]]]; auto.
+Qed.
+
+Lemma calm_tok_zero s q : Forall (calm_pc s) (thr s) -> qcanc s q = true -> cnt (tokf q) (thr s) = 0.
+Proof.
+  intros F Cq. apply cnt_zero. intros p Hin. rewrite Forall_forall in F.
+  destruct (F p Hin) as [->|[->|[->|[(q' & -> & Cn)|[(q' & r & ->)|(q' & ->)]]]]]; auto. simpl. unfold eqn.
+  destruct (Nat.eqb q' q) eqn:Q; auto. apply Nat.eqb_eq in Q. subst. congruence.
+Qed.
+
+(* in a calm, settled configuration with empty finished / expired queues no runner is running *)
+Lemma calm_nolive c s ev :
+  fixed c -> Reach c s ev -> Forall (calm_pc s) (thr s) -> finq s = [] -> expq s = [] -> settled s ->
+  forall r, rclosed s r = false -> False.
+Proof.
+  intros Hf R F Fq Eq (Sg & St) r Hc.
+  pose proof (L3_Reach _ _ _ Hf R) as I3. pose proof (I_id_Reach _ _ _ Hf R) as ID.
+  assert (Fr : cnt (freshr r) (thr s) = 0) by (apply calm_cnt_zero; auto).
+  pose proof (ID r Hc Fr) as Rs. unfold reason in Rs. rewrite Eq in Rs. unfold occ in Rs. simpl in Rs.
+  assert (Ex : cnt (expf r) (thr s) = 0) by (apply calm_cnt_zero; auto). rewrite Ex in Rs.
+  destruct (rclosed_false _ _ Hc) as (x & Er & Cx).
+  unfold getd, getr in *. rewrite Er in Rs. unfold ra, armedn in Rs. rewrite (St _ _ Er Cx) in Rs.
+  unfold refn1 in Rs. destruct (N.eqb (r_ref x) 0) eqn:Z; [lia|]. apply N.eqb_neq in Z.
+  pose proof (l3_ref s I3 r) as Rf. unfold rref in Rf. rewrite (getf_some _ _ _ _ _ Er) in Rf.
+  assert (In0 : infl s r = 0) by (unfold infl; apply calm_cnt_zero; auto). rewrite In0 in Rf.
+  assert (Us : 1 <= users s r) by lia.
+  unfold users in Us. destruct (cnt_pos_In (usef r) (reqs s) ltac:(lia)) as (y & Hin & Hy).
+  apply In_nth_error in Hin. destruct Hin as [q Eqy].
+  unfold usef in Hy. destruct (q_grant y) as [r'|] eqn:G; [|lia]. destruct (q_fin y) eqn:Fy; [lia|].
+  assert (Cy : q_cancelled y = true) by (apply (Sg q y Eqy); congruence).
+  assert (Cq : qcanc s q = true) by (unfold qcanc; rewrite (getf_some _ _ _ _ _ Eqy); auto).
+  pose proof (l3_tok s I3 q) as T. rewrite Fq in T. unfold occ in T. simpl in T.
+  rewrite (calm_tok_zero s q F Cq) in T.
+  assert (Lw : cnt (lwokf q) (thr s) = 0) by (apply calm_cnt_zero; auto). rewrite Lw in T.
+  unfold getd, finn, grantedn in T. unfold getq in Eqy. rewrite Eqy in T. rewrite G, Fy in T. lia.
+Qed.
+
 Lemma idle_cnt_zero s (f : pc -> nat) :
   Forall (idle_pc s) (thr s) -> f PSel = 0 -> f CSel = 0 -> f TDone = 0 -> (forall q, f (FWDone q) = 0) -> cnt f (thr s) = 0.
 Proof.
   intros F A B C D. apply cnt_zero. intros p Hin. rewrite Forall_forall in F.
   destruct (F p Hin) as [->|[->|[->|(q & -> & _)]]]; auto.
-Qed.
-
-Lemma idle_tok_zero s q : Forall (idle_pc s) (thr s) -> qcanc s q = true -> cnt (tokf q) (thr s) = 0.
-Proof.
-  intros F Cq. apply cnt_zero. intros p Hin. rewrite Forall_forall in F.
-  destruct (F p Hin) as [->|[->|[->|(q' & -> & Cn)]]]; auto. simpl. unfold eqn.
-  destruct (Nat.eqb q' q) eqn:Q; auto. apply Nat.eqb_eq in Q. subst. congruence.
 Qed.
 
 Theorem drained c s ev :
@@ -40,26 +84,9 @@ Proof.
   pose proof (L2_Reach _ _ _ Hf R) as I2. pose proof (L3_Reach _ _ _ Hf R) as I3.
   pose proof (I_id_Reach _ _ _ Hf R) as ID. pose proof (I_own_Reach _ _ _ R) as IW. pose proof (I_ow_Reach _ _ _ R) as OW.
   assert (NoLive : forall r, rclosed s r = false -> False).
-  { intros r Hc.
-    assert (Fr : cnt (freshr r) (thr s) = 0) by (apply idle_cnt_zero; auto).
-    pose proof (ID r Hc Fr) as Rs. unfold reason in Rs. rewrite Eq in Rs. unfold occ in Rs. simpl in Rs.
-    assert (Ex : cnt (expf r) (thr s) = 0) by (apply idle_cnt_zero; auto). rewrite Ex in Rs.
-    destruct (rclosed_false _ _ Hc) as (x & Er & Cx).
-    unfold getd, getr in *. rewrite Er in Rs. unfold ra, armedn in Rs. rewrite (St _ _ Er Cx) in Rs.
-    unfold refn1 in Rs. destruct (N.eqb (r_ref x) 0) eqn:Z; [lia|]. apply N.eqb_neq in Z.
-    (* refCount > 0: somebody holds r, and with idle threads it is a granted, unfinished request *)
-    pose proof (l3_ref s I3 r) as Rf. unfold rref in Rf. rewrite (getf_some _ _ _ _ _ Er) in Rf.
-    assert (In0 : infl s r = 0) by (unfold infl; apply idle_cnt_zero; auto). rewrite In0 in Rf.
-    assert (Us : 1 <= users s r) by lia.
-    unfold users in Us. destruct (cnt_pos_In (usef r) (reqs s) ltac:(lia)) as (y & Hin & Hy).
-    apply In_nth_error in Hin. destruct Hin as [q Eqy].
-    unfold usef in Hy. destruct (q_grant y) as [r'|] eqn:G; [|lia]. destruct (q_fin y) eqn:Fy; [lia|].
-    assert (Cy : q_cancelled y = true) by (apply (Sg q y Eqy); congruence).
-    assert (Cq : qcanc s q = true) by (unfold qcanc; rewrite (getf_some _ _ _ _ _ Eqy); auto).
-    pose proof (l3_tok s I3 q) as T. rewrite Fq in T. unfold occ in T. simpl in T.
-    rewrite (idle_tok_zero s q F Cq) in T.
-    assert (Lw : cnt (lwokf q) (thr s) = 0) by (apply idle_cnt_zero; auto). rewrite Lw in T.
-    unfold getd, finn, grantedn in T. unfold getq in Eqy. rewrite Eqy in T. rewrite G, Fy in T. lia. }
+  { eapply calm_nolive; eauto.
+    - rewrite Forall_forall in *. intros p Hin. apply idle_calm. auto.
+    - split; auto. }
   split; [|split].
   - destruct (loaded s) as [|[m r] tl] eqn:L; auto. exfalso.
     assert (Lk : lookup (loaded s) m = Some r) by (rewrite L; simpl; rewrite Nat.eqb_refl; auto).
